@@ -75,6 +75,12 @@ SPECIAL = ['double_null2', 'ppwave4', 'radiation_flrw4', 'zero_minor3',
 
 def generate(rng, tier):
     run = _generate(rng, tier)
+    gh = rng.child('c15hist')
+    # the caller looks at the default metric before supplying its own; an
+    # earlier object of the same dimension with a diagonal metric was used in
+    # the same session
+    run['config']['look_at_default_first'] = gh.chance(0.2)
+    run['config']['earlier_diagonal_object'] = gh.chance(0.3)
     # fault: a request is interrupted between caching the raw result and its
     # post-processing (simplify=True: inside the n-th sympy.simplify call of
     # the request; otherwise inside the n-th progress message, verbose=True);
@@ -171,6 +177,10 @@ def fixup(run):
 
 
 def simplify(run):
+    for flag in ('look_at_default_first', 'earlier_diagonal_object',
+                 'prelude'):
+        if run['config'].get(flag):
+            c = copy.deepcopy(run); c['config'][flag] = False; yield c
     for i, o in enumerate(run['ops']):
         if o.get('fault'):
             c = copy.deepcopy(run); del c['ops'][i]['fault']; yield c
@@ -488,8 +498,25 @@ def _execute2(run, seams):
             probe('earlier_instance_in_session')
         except Exception:  # noqa: BLE001 - the prelude claims nothing
             pass
+    if cfg.get('earlier_diagonal_object'):
+        try:
+            d0 = aurel.AurelCoreSymbolic(xs, verbose=False, simplify=False)
+            d0.data['gdown'] = sp.diag(*[
+                (-1 if i == 0 and dim == 4 else 1) * (1 + xs[i - 1] ** 2)
+                for i in range(dim)])
+            for k0 in ('Gamma_udd', 'Gamma_down', 'Ricci_down'):
+                d0[k0]
+            probe('earlier_diagonal_object_in_session')
+        except Exception:  # noqa: BLE001 - claims nothing
+            pass
     rel = aurel.AurelCoreSymbolic(xs, verbose=bool(cfg.get('verbose')),
                                   simplify=cfg['simplify'])
+    if cfg.get('look_at_default_first'):
+        try:
+            rel['gdown']                   # the documented default metric
+            probe('default_metric_looked_at_first')
+        except Exception:  # noqa: BLE001
+            pass
     rel.data['gdown'] = g
     from ..runner import RunTimeout
     compared = 0
